@@ -427,6 +427,32 @@ func runC09(env *lib.Env, rep *lib.Report) {
 			}
 		}
 	}
+	// ---- (vi) every word of every corpus statement replaced by a word / literal of 1..48 multi-byte characters
+	// (2, 3 and 4 bytes each): whatever the parser does with it - accept it or name it in an error - byte length
+	// and character count differ here
+	rep.Bounds["(vi) multi-byte words"] = "every word of every corpus statement replaced by a bare word and by a quoted literal of 1..48 characters of 2, 3 and 4 bytes"
+	for _, q := range c09Corpus {
+		words := strings.Fields(q)
+		for wi := range words {
+			for _, ch := range []string{"é", "日", "🙂"} {
+				for n := 1; n <= 48; n++ {
+					for _, quoted := range []bool{false, true} {
+						nw := append([]string{}, words...)
+						nw[wi] = strings.Repeat(ch, n)
+						if quoted {
+							nw[wi] = "'" + nw[wi] + "'"
+						}
+						s := strings.Join(nw, " ")
+						if r.mine() {
+							r.prog.Set("text:multi-byte-word", s)
+							res, err, pan := c09ParseText(s)
+							r.judge("text:multi-byte-word", s, res, err, pan)
+						}
+					}
+				}
+			}
+		}
+	}
 	rep.Bounds["inputs enumerated (all shards)"] = r.n
 	_ = os.Stderr
 }
